@@ -980,6 +980,15 @@ func txnIterHandlerFunc(
 			}
 		}
 
+		if mc.isBuildInTxn(txn) {
+			// build-in transactions are appended by the generator only; one taken from the
+			// pool would make verifiers reject the block as carrying a duplicate
+			logging.Logger.Error("generate block - build-in transaction submitted through the pool",
+				zap.String("txn", txn.Hash), zap.String("function_name", txn.FunctionName))
+			tii.invalidTxns = append(tii.invalidTxns, txn)
+			return true, nil
+		}
+
 		if cost >= mc.ChainConfig.MaxBlockCost()-tii.cost {
 			logging.Logger.Debug("generate block (too big cost, skipping)")
 			return true, nil
